@@ -1,19 +1,14 @@
-(* C10: the grad grad B tensor, by certificates.
+(* C10: the grad grad B tensor, by certificates -- the closed theorems.
    S = object state (attribute values); VA, V1, V2, VG, VT, VY, VC, VR = models (Shallow.stage) of the programs regenerated from
    init_axis, r1_diagnostics (either helicity variant), calculate_r2 (either variant), calculate_grad_grad_B_tensor,
    calculate_grad_B_tensor, grad_grad_B_tensor_cylindrical, grad_grad_B_tensor_cartesian, _residual.  Continuum model: derivation O.
-   Method: the definitions of the 54 entries are pulled from the regenerated program (unfold_fix); the first-order
-   quantities are expressed through X1c and its derivatives using X1c*Y1s = sG*spsi, kappa*X1c = etabar (both
-   differentiated with the Leibniz rule), Y2s/Y2c through the two algebraic O(r^2) relations (and their derivatives), and
-   every identity is then closed by [field] modulo sG^2 = spsi^2 = 1 (shared lemmas: props/C10_common.v).
-   PROVED HERE: (d) two_ways (27 entries), (a) sym12, (b) divfree, (e) tangent_contraction, (f) scale_length,
-   (g) cylindrical_is_frenet / cartesian_is_rotation_of_that, and of (c) the tangent slice a = 2 for ANY current
-   (tangent_slice_curl) with its vacuum corollary.  The rest of (c) is in props/C10_vacuum.v. *)
-From Coq Require Import Reals String List Lra Lia QArith Qreals FunctionalExtensionality.
+   The proofs live in C10_two_a.v, C10_two_b.v (d), C10_sym_div.v (a, b), C10_tangent.v (e and the tangent slice of c),
+   C10_scale_api.v (f, g), all on top of C10_common.v; this file only assembles them.  The rest of (c) is in C10_vacuum.v. *)
+From Coq Require Import Reals String List Lia.
 From QSC Require Import Expr Shallow.
 From QSCGen Require Import G_init_axis G_r1_diagnostics G_calculate_r2 G_residual G_calculate_grad_grad_B_tensor
      G_calculate_grad_B_tensor G_grad_grad_B_tensor_cylindrical G_grad_grad_B_tensor_cartesian.
-From QSCProps Require Import C10_spec C10_common.
+From QSCProps Require Import C10_spec C10_two_a C10_two_b C10_sym_div C10_tangent C10_scale_api.
 Open Scope R_scope.
 Open Scope string_scope.
 
@@ -23,339 +18,46 @@ Section Main.
   Hypothesis HA : stage O init_axis S VA.
   Hypothesis H1 : stage O r1_diagnostics_h0 S V1 \/ stage O r1_diagnostics_hN S V1.
   Hypothesis H2 : stage O calculate_r2_h0 S V2 \/ stage O calculate_r2_hN S V2.
-  Notation Dv := (Dv O S).
-  Notation sG := (S "s.sG"). Notation spsi := (S "s.spsi"). Notation kap := (S "s.curvature").
-  Notation etabar := (S "s.etabar"). Notation X1c := (S "s.X1c"). Notation Y1s := (S "s.Y1s"). Notation Y1c := (S "s.Y1c").
-  Notation aGB := (S "s.abs_G0_over_B0"). Notation B0 := (S "s.B0").
-  Local Notation F_X1c := (C10_common.F_X1c O HD S VA V1 V2 Hadm HA H1 H2).
-  Local Notation F_G0 := (C10_common.F_G0 O HD S VA V1 V2 Hadm HA H1 H2).
-  Local Notation F_dldvp := (C10_common.F_dldvp O HD S VA V1 V2 Hadm HA H1 H2).
-  Local Notation F_absG0 := (C10_common.F_absG0 O HD S VA V1 V2 Hadm HA H1 H2).
-  Local Notation X1c_nz := (C10_common.X1c_nz O HD S VA V1 V2 Hadm HA H1 H2).
-  Local Notation F_Y1s := (C10_common.F_Y1s O HD S VA V1 V2 Hadm HA H1 H2).
-  Local Notation F_Y1c := (C10_common.F_Y1c O HD S VA V1 V2 Hadm HA H1 H2).
-  Local Notation F_dX1c := (C10_common.F_dX1c O HD S VA V1 V2 Hadm HA H1 H2).
-  Local Notation F_dY1s := (C10_common.F_dY1s O HD S VA V1 V2 Hadm HA H1 H2).
-  Local Notation F_dY1c := (C10_common.F_dY1c O HD S VA V1 V2 Hadm HA H1 H2).
-  Local Notation F_dX20 := (C10_common.F_dX20 O HD S VA V1 V2 Hadm HA H1 H2).
-  Local Notation F_dX2s := (C10_common.F_dX2s O HD S VA V1 V2 Hadm HA H1 H2).
-  Local Notation F_dX2c := (C10_common.F_dX2c O HD S VA V1 V2 Hadm HA H1 H2).
-  Local Notation F_dY20 := (C10_common.F_dY20 O HD S VA V1 V2 Hadm HA H1 H2).
-  Local Notation F_dY2s := (C10_common.F_dY2s O HD S VA V1 V2 Hadm HA H1 H2).
-  Local Notation F_dY2c := (C10_common.F_dY2c O HD S VA V1 V2 Hadm HA H1 H2).
-  Local Notation F_dZ20 := (C10_common.F_dZ20 O HD S VA V1 V2 Hadm HA H1 H2).
-  Local Notation F_dZ2s := (C10_common.F_dZ2s O HD S VA V1 V2 Hadm HA H1 H2).
-  Local Notation F_dZ2c := (C10_common.F_dZ2c O HD S VA V1 V2 Hadm HA H1 H2).
-  Local Notation F_dkap := (C10_common.F_dkap O HD S VA V1 V2 Hadm HA H1 H2).
-  Local Notation F_dtau := (C10_common.F_dtau O HD S VA V1 V2 Hadm HA H1 H2).
-  Local Notation F_d2X1c := (C10_common.F_d2X1c O HD S VA V1 V2 Hadm HA H1 H2).
-  Local Notation F_d2Y1s := (C10_common.F_d2Y1s O HD S VA V1 V2 Hadm HA H1 H2).
-  Local Notation F_d2Y1c := (C10_common.F_d2Y1c O HD S VA V1 V2 Hadm HA H1 H2).
-  Local Notation F_Y2s := (C10_common.F_Y2s O HD S VA V1 V2 Hadm HA H1 H2).
-  Local Notation F_Y2c := (C10_common.F_Y2c O HD S VA V1 V2 Hadm HA H1 H2).
-  Local Notation sGspsi_const := (C10_common.sGspsi_const O HD S VA V1 V2 Hadm HA H1 H2).
-  Local Notation R_XY := (C10_common.R_XY O HD S VA V1 V2 Hadm HA H1 H2).
-  Local Notation R_dXY := (C10_common.R_dXY O HD S VA V1 V2 Hadm HA H1 H2).
-  Local Notation R_d2XY := (C10_common.R_d2XY O HD S VA V1 V2 Hadm HA H1 H2).
-  Local Notation R_kX := (C10_common.R_kX O HD S VA V1 V2 Hadm HA H1 H2).
-  Local Notation R_dkX := (C10_common.R_dkX O HD S VA V1 V2 Hadm HA H1 H2).
-  Local Notation S_Y1s := (C10_common.S_Y1s O HD S VA V1 V2 Hadm HA H1 H2).
-  Local Notation S_dY1s := (C10_common.S_dY1s O HD S VA V1 V2 Hadm HA H1 H2).
-  Local Notation S_d2Y1s := (C10_common.S_d2Y1s O HD S VA V1 V2 Hadm HA H1 H2).
-  Local Notation S_kap := (C10_common.S_kap O HD S VA V1 V2 Hadm HA H1 H2).
-  Local Notation S_dkap := (C10_common.S_dkap O HD S VA V1 V2 Hadm HA H1 H2).
-  Local Notation R_Y2s := (C10_common.R_Y2s O HD S VA V1 V2 Hadm HA H1 H2).
-  Local Notation R_Y2c := (C10_common.R_Y2c O HD S VA V1 V2 Hadm HA H1 H2).
-  Local Notation R_dY2s := (C10_common.R_dY2s O HD S VA V1 V2 Hadm HA H1 H2).
-  Local Notation R_dY2c := (C10_common.R_dY2c O HD S VA V1 V2 Hadm HA H1 H2).
-  Local Notation sG_nz := (C10_common.sG_nz O HD S VA V1 V2 Hadm HA H1 H2).
-  Local Notation spsi_nz := (C10_common.spsi_nz O HD S VA V1 V2 Hadm HA H1 H2).
-  Ltac dv_push := dv_push_ O HD.
-  Ltac both tac := destruct H2 as [H|H]; [tac calculate_r2_h0 H | tac calculate_r2_hN H].
-  Ltac nz := repeat split; first [apply X1c_nz | apply sG_nz | apply spsi_nz | apply (adm_eta S Hadm) | apply (adm_kappa S Hadm)
-                                 | apply Rgt_not_eq, (adm_B0 S Hadm) | apply Rgt_not_eq, (adm_lp S Hadm) | lra].
-  Ltac fin := rewrite ?F_d2X1c, ?F_d2Y1s, ?F_d2Y1c, ?F_dX1c, ?F_dY1s, ?F_dY1c, ?F_dkap, ?F_dtau; unfold Rdiv; ring.
-  (* ---- the tensor entries ---- *)
   Variable VG : string -> I -> R.
   Hypothesis HG : stage O calculate_grad_grad_B_tensor S VG.
-  Ltac gg_locals := unfold_fixes O calculate_grad_grad_B_tensor (st_fix _ _ _ _ HG)
-    ("X1c" :: "Y1s" :: "Y1c" :: "X20" :: "X2s" :: "X2c" :: "Y20" :: "Y2s" :: "Y2c" :: "Z20" :: "Z2s" :: "Z2c" :: "iota_N0" :: "iota" :: "lp" :: "curvature" :: "torsion" :: "sign_G" :: "sign_psi" :: "B0" :: "G0" :: "I2" :: "G2" :: "p2" :: "B20" :: "B2s" :: "B2c" :: "d_X1c_d_varphi" :: "d_Y1s_d_varphi" :: "d_Y1c_d_varphi" :: "d_X20_d_varphi" :: "d_X2s_d_varphi" :: "d_X2c_d_varphi" :: "d_Y20_d_varphi" :: "d_Y2s_d_varphi" :: "d_Y2c_d_varphi" :: "d_Z20_d_varphi" :: "d_Z2s_d_varphi" :: "d_Z2c_d_varphi" :: "d2_X1c_d_varphi2" :: "d2_Y1s_d_varphi2" :: "d2_Y1c_d_varphi2" :: "d_curvature_d_varphi" :: "d_torsion_d_varphi" :: nil)%list.
-  (* S "s.grad_grad_B.." i  -->  its formula over the object state *)
-  Ltac gg_entry a l :=
-    rewrite <- (st_agree _ _ _ _ HG a eq_refl);
-    unfold_fixes O calculate_grad_grad_B_tensor (st_fix _ _ _ _ HG) (a :: l :: nil)%list.
-  Ltac close i :=
-    rewrite ?R_dY2s, ?R_dY2c, ?R_Y2s, ?R_Y2c, ?S_d2Y1s, ?S_dY1s, ?S_Y1s, ?S_dkap, ?S_kap, ?F_absG0, ?F_G0;
-    pose proof (adm_sG S Hadm i) as Es; pose proof (adm_spsi S Hadm i) as Ep;
-    qsimp; field [Es Ep]; nz.
-  Ltac two a b c d :=
-    intros i; gg_entry a b; gg_entry c d; gg_locals; to_state HG; close i.
-  (* ---- (d) the two derivations agree ---- *)
-  Lemma two_000 : forall i, S "s.grad_grad_B_0_0_0" i = S "s.grad_grad_B_alt_0_0_0" i.
-  Proof. two "s.grad_grad_B_0_0_0" "grad_grad_B_0_0_0#2" "s.grad_grad_B_alt_0_0_0" "grad_grad_B_alt_0_0_0#2". Qed.
-  Lemma two_001 : forall i, S "s.grad_grad_B_0_0_1" i = S "s.grad_grad_B_alt_0_0_1" i.
-  Proof. two "s.grad_grad_B_0_0_1" "grad_grad_B_0_0_1#2" "s.grad_grad_B_alt_0_0_1" "grad_grad_B_alt_0_0_1#2". Qed.
-  Lemma two_002 : forall i, S "s.grad_grad_B_0_0_2" i = S "s.grad_grad_B_alt_0_0_2" i.
-  Proof. two "s.grad_grad_B_0_0_2" "grad_grad_B_0_0_2#2" "s.grad_grad_B_alt_0_0_2" "grad_grad_B_alt_0_0_2#2". Qed.
-  Lemma two_010 : forall i, S "s.grad_grad_B_0_1_0" i = S "s.grad_grad_B_alt_0_1_0" i.
-  Proof. two "s.grad_grad_B_0_1_0" "grad_grad_B_0_1_0#2" "s.grad_grad_B_alt_0_1_0" "grad_grad_B_alt_0_1_0#2". Qed.
-  Lemma two_011 : forall i, S "s.grad_grad_B_0_1_1" i = S "s.grad_grad_B_alt_0_1_1" i.
-  Proof. two "s.grad_grad_B_0_1_1" "grad_grad_B_0_1_1#2" "s.grad_grad_B_alt_0_1_1" "grad_grad_B_alt_0_1_1#2". Qed.
-  Lemma two_012 : forall i, S "s.grad_grad_B_0_1_2" i = S "s.grad_grad_B_alt_0_1_2" i.
-  Proof. two "s.grad_grad_B_0_1_2" "grad_grad_B_0_1_2#2" "s.grad_grad_B_alt_0_1_2" "grad_grad_B_alt_0_1_2#2". Qed.
-  Lemma two_020 : forall i, S "s.grad_grad_B_0_2_0" i = S "s.grad_grad_B_alt_0_2_0" i.
-  Proof. two "s.grad_grad_B_0_2_0" "grad_grad_B_0_2_0#2" "s.grad_grad_B_alt_0_2_0" "grad_grad_B_alt_0_2_0#2". Qed.
-  Lemma two_021 : forall i, S "s.grad_grad_B_0_2_1" i = S "s.grad_grad_B_alt_0_2_1" i.
-  Proof. two "s.grad_grad_B_0_2_1" "grad_grad_B_0_2_1#2" "s.grad_grad_B_alt_0_2_1" "grad_grad_B_alt_0_2_1#2". Qed.
-  Lemma two_022 : forall i, S "s.grad_grad_B_0_2_2" i = S "s.grad_grad_B_alt_0_2_2" i.
-  Proof. two "s.grad_grad_B_0_2_2" "grad_grad_B_0_2_2#2" "s.grad_grad_B_alt_0_2_2" "grad_grad_B_alt_0_2_2#2". Qed.
-  Lemma two_100 : forall i, S "s.grad_grad_B_1_0_0" i = S "s.grad_grad_B_alt_1_0_0" i.
-  Proof. two "s.grad_grad_B_1_0_0" "grad_grad_B_1_0_0#2" "s.grad_grad_B_alt_1_0_0" "grad_grad_B_alt_1_0_0#2". Qed.
-  Lemma two_101 : forall i, S "s.grad_grad_B_1_0_1" i = S "s.grad_grad_B_alt_1_0_1" i.
-  Proof. two "s.grad_grad_B_1_0_1" "grad_grad_B_1_0_1#2" "s.grad_grad_B_alt_1_0_1" "grad_grad_B_alt_1_0_1#2". Qed.
-  Lemma two_102 : forall i, S "s.grad_grad_B_1_0_2" i = S "s.grad_grad_B_alt_1_0_2" i.
-  Proof. two "s.grad_grad_B_1_0_2" "grad_grad_B_1_0_2#2" "s.grad_grad_B_alt_1_0_2" "grad_grad_B_alt_1_0_2#2". Qed.
-  Lemma two_110 : forall i, S "s.grad_grad_B_1_1_0" i = S "s.grad_grad_B_alt_1_1_0" i.
-  Proof. two "s.grad_grad_B_1_1_0" "grad_grad_B_1_1_0#2" "s.grad_grad_B_alt_1_1_0" "grad_grad_B_alt_1_1_0#2". Qed.
-  Lemma two_111 : forall i, S "s.grad_grad_B_1_1_1" i = S "s.grad_grad_B_alt_1_1_1" i.
-  Proof. two "s.grad_grad_B_1_1_1" "grad_grad_B_1_1_1#2" "s.grad_grad_B_alt_1_1_1" "grad_grad_B_alt_1_1_1#2". Qed.
-  Lemma two_112 : forall i, S "s.grad_grad_B_1_1_2" i = S "s.grad_grad_B_alt_1_1_2" i.
-  Proof. two "s.grad_grad_B_1_1_2" "grad_grad_B_1_1_2#2" "s.grad_grad_B_alt_1_1_2" "grad_grad_B_alt_1_1_2#2". Qed.
-  Lemma two_120 : forall i, S "s.grad_grad_B_1_2_0" i = S "s.grad_grad_B_alt_1_2_0" i.
-  Proof. two "s.grad_grad_B_1_2_0" "grad_grad_B_1_2_0#2" "s.grad_grad_B_alt_1_2_0" "grad_grad_B_alt_1_2_0#2". Qed.
-  Lemma two_121 : forall i, S "s.grad_grad_B_1_2_1" i = S "s.grad_grad_B_alt_1_2_1" i.
-  Proof. two "s.grad_grad_B_1_2_1" "grad_grad_B_1_2_1#2" "s.grad_grad_B_alt_1_2_1" "grad_grad_B_alt_1_2_1#2". Qed.
-  Lemma two_122 : forall i, S "s.grad_grad_B_1_2_2" i = S "s.grad_grad_B_alt_1_2_2" i.
-  Proof. two "s.grad_grad_B_1_2_2" "grad_grad_B_1_2_2#2" "s.grad_grad_B_alt_1_2_2" "grad_grad_B_alt_1_2_2#2". Qed.
-  Lemma two_200 : forall i, S "s.grad_grad_B_2_0_0" i = S "s.grad_grad_B_alt_2_0_0" i.
-  Proof. two "s.grad_grad_B_2_0_0" "grad_grad_B_2_0_0#2" "s.grad_grad_B_alt_2_0_0" "grad_grad_B_alt_2_0_0#2". Qed.
-  Lemma two_201 : forall i, S "s.grad_grad_B_2_0_1" i = S "s.grad_grad_B_alt_2_0_1" i.
-  Proof. two "s.grad_grad_B_2_0_1" "grad_grad_B_2_0_1#2" "s.grad_grad_B_alt_2_0_1" "grad_grad_B_alt_2_0_1#2". Qed.
-  Lemma two_202 : forall i, S "s.grad_grad_B_2_0_2" i = S "s.grad_grad_B_alt_2_0_2" i.
-  Proof. two "s.grad_grad_B_2_0_2" "grad_grad_B_2_0_2#2" "s.grad_grad_B_alt_2_0_2" "grad_grad_B_alt_2_0_2#2". Qed.
-  Lemma two_210 : forall i, S "s.grad_grad_B_2_1_0" i = S "s.grad_grad_B_alt_2_1_0" i.
-  Proof. two "s.grad_grad_B_2_1_0" "grad_grad_B_2_1_0#2" "s.grad_grad_B_alt_2_1_0" "grad_grad_B_alt_2_1_0#2". Qed.
-  Lemma two_211 : forall i, S "s.grad_grad_B_2_1_1" i = S "s.grad_grad_B_alt_2_1_1" i.
-  Proof. two "s.grad_grad_B_2_1_1" "grad_grad_B_2_1_1#2" "s.grad_grad_B_alt_2_1_1" "grad_grad_B_alt_2_1_1#2". Qed.
-  Lemma two_212 : forall i, S "s.grad_grad_B_2_1_2" i = S "s.grad_grad_B_alt_2_1_2" i.
-  Proof. two "s.grad_grad_B_2_1_2" "grad_grad_B_2_1_2#2" "s.grad_grad_B_alt_2_1_2" "grad_grad_B_alt_2_1_2#2". Qed.
-  Lemma two_220 : forall i, S "s.grad_grad_B_2_2_0" i = S "s.grad_grad_B_alt_2_2_0" i.
-  Proof. two "s.grad_grad_B_2_2_0" "grad_grad_B_2_2_0#2" "s.grad_grad_B_alt_2_2_0" "grad_grad_B_alt_2_2_0#2". Qed.
-  Lemma two_221 : forall i, S "s.grad_grad_B_2_2_1" i = S "s.grad_grad_B_alt_2_2_1" i.
-  Proof. two "s.grad_grad_B_2_2_1" "grad_grad_B_2_2_1#2" "s.grad_grad_B_alt_2_2_1" "grad_grad_B_alt_2_2_1#2". Qed.
-  Lemma two_222 : forall i, S "s.grad_grad_B_2_2_2" i = S "s.grad_grad_B_alt_2_2_2" i.
-  Proof. two "s.grad_grad_B_2_2_2" "grad_grad_B_2_2_2#2" "s.grad_grad_B_alt_2_2_2" "grad_grad_B_alt_2_2_2#2". Qed.
   Theorem C10_two_ways : two_ways S.
   Proof.
-    intros i a b c Ha Hb Hc. unfold G, Galt.
-    destruct a as [|[|[|a]]]; try lia; destruct b as [|[|[|b]]]; try lia; destruct c as [|[|[|c]]]; try lia;
-      first [apply two_000|apply two_001|apply two_002|apply two_010|apply two_011|apply two_012|apply two_020|apply two_021|apply two_022|apply two_100|apply two_101|apply two_102|apply two_110|apply two_111|apply two_112|apply two_120|apply two_121|apply two_122|apply two_200|apply two_201|apply two_202|apply two_210|apply two_211|apply two_212|apply two_220|apply two_221|apply two_222].
+    intros i a b c Ha Hb Hc. destruct a as [|a].
+    - eapply C10_two_ways_0; eassumption.
+    - eapply C10_two_ways_12; try eassumption; lia.
   Qed.
-  (* ---- (a) symmetry in the derivative indices ---- *)
-  Lemma sym_010 : forall i, S "s.grad_grad_B_0_1_0" i = S "s.grad_grad_B_1_0_0" i.
-  Proof. two "s.grad_grad_B_0_1_0" "grad_grad_B_0_1_0#2" "s.grad_grad_B_1_0_0" "grad_grad_B_1_0_0#2". Qed.
-  Lemma sym_011 : forall i, S "s.grad_grad_B_0_1_1" i = S "s.grad_grad_B_1_0_1" i.
-  Proof. two "s.grad_grad_B_0_1_1" "grad_grad_B_0_1_1#2" "s.grad_grad_B_1_0_1" "grad_grad_B_1_0_1#2". Qed.
-  Lemma sym_012 : forall i, S "s.grad_grad_B_0_1_2" i = S "s.grad_grad_B_1_0_2" i.
-  Proof. two "s.grad_grad_B_0_1_2" "grad_grad_B_0_1_2#2" "s.grad_grad_B_1_0_2" "grad_grad_B_1_0_2#2". Qed.
-  Lemma sym_020 : forall i, S "s.grad_grad_B_0_2_0" i = S "s.grad_grad_B_2_0_0" i.
-  Proof. two "s.grad_grad_B_0_2_0" "grad_grad_B_0_2_0#2" "s.grad_grad_B_2_0_0" "grad_grad_B_2_0_0#2". Qed.
-  Lemma sym_021 : forall i, S "s.grad_grad_B_0_2_1" i = S "s.grad_grad_B_2_0_1" i.
-  Proof. two "s.grad_grad_B_0_2_1" "grad_grad_B_0_2_1#2" "s.grad_grad_B_2_0_1" "grad_grad_B_2_0_1#2". Qed.
-  Lemma sym_022 : forall i, S "s.grad_grad_B_0_2_2" i = S "s.grad_grad_B_2_0_2" i.
-  Proof. two "s.grad_grad_B_0_2_2" "grad_grad_B_0_2_2#2" "s.grad_grad_B_2_0_2" "grad_grad_B_2_0_2#2". Qed.
-  Lemma sym_120 : forall i, S "s.grad_grad_B_1_2_0" i = S "s.grad_grad_B_2_1_0" i.
-  Proof. two "s.grad_grad_B_1_2_0" "grad_grad_B_1_2_0#2" "s.grad_grad_B_2_1_0" "grad_grad_B_2_1_0#2". Qed.
-  Lemma sym_121 : forall i, S "s.grad_grad_B_1_2_1" i = S "s.grad_grad_B_2_1_1" i.
-  Proof. two "s.grad_grad_B_1_2_1" "grad_grad_B_1_2_1#2" "s.grad_grad_B_2_1_1" "grad_grad_B_2_1_1#2". Qed.
-  Lemma sym_122 : forall i, S "s.grad_grad_B_1_2_2" i = S "s.grad_grad_B_2_1_2" i.
-  Proof. two "s.grad_grad_B_1_2_2" "grad_grad_B_1_2_2#2" "s.grad_grad_B_2_1_2" "grad_grad_B_2_1_2#2". Qed.
   Theorem C10_sym12 : sym12 S.
-  Proof.
-    intros i a b c Ha Hb Hc. unfold G.
-    destruct a as [|[|[|a]]]; try lia; destruct b as [|[|[|b]]]; try lia; destruct c as [|[|[|c]]]; try lia;
-      first [reflexivity|apply sym_010|apply sym_011|apply sym_012|apply sym_020|apply sym_021|apply sym_022|apply sym_120|apply sym_121|apply sym_122|symmetry; apply sym_010|symmetry; apply sym_011|symmetry; apply sym_012|symmetry; apply sym_020|symmetry; apply sym_021|symmetry; apply sym_022|symmetry; apply sym_120|symmetry; apply sym_121|symmetry; apply sym_122].
-  Qed.
-  (* ---- (b) gradient of div B ---- *)
-  Ltac three a b c d e f :=
-    intros i; gg_entry a b; gg_entry c d; gg_entry e f; gg_locals; to_state HG; close i.
-  Lemma div_0 : forall i, S "s.grad_grad_B_0_0_0" i + S "s.grad_grad_B_0_1_1" i + S "s.grad_grad_B_0_2_2" i = 0.
-  Proof. three "s.grad_grad_B_0_0_0" "grad_grad_B_0_0_0#2" "s.grad_grad_B_0_1_1" "grad_grad_B_0_1_1#2" "s.grad_grad_B_0_2_2" "grad_grad_B_0_2_2#2". Qed.
-  Lemma div_1 : forall i, S "s.grad_grad_B_1_0_0" i + S "s.grad_grad_B_1_1_1" i + S "s.grad_grad_B_1_2_2" i = 0.
-  Proof. three "s.grad_grad_B_1_0_0" "grad_grad_B_1_0_0#2" "s.grad_grad_B_1_1_1" "grad_grad_B_1_1_1#2" "s.grad_grad_B_1_2_2" "grad_grad_B_1_2_2#2". Qed.
-  Lemma div_2 : forall i, S "s.grad_grad_B_2_0_0" i + S "s.grad_grad_B_2_1_1" i + S "s.grad_grad_B_2_2_2" i = 0.
-  Proof. three "s.grad_grad_B_2_0_0" "grad_grad_B_2_0_0#2" "s.grad_grad_B_2_1_1" "grad_grad_B_2_1_1#2" "s.grad_grad_B_2_2_2" "grad_grad_B_2_2_2#2". Qed.
+  Proof. eapply C10_sym12_p; eassumption. Qed.
   Theorem C10_divfree : divfree S.
-  Proof.
-    intros i a Ha. unfold G.
-    destruct a as [|[|[|a]]]; try lia; first [apply div_0|apply div_1|apply div_2].
-  Qed.
-
-  (* ---- (e) tangent contraction ---- *)
+  Proof. eapply C10_divfree_p; eassumption. Qed.
   Variable VT : string -> I -> R.
   Hypothesis HT : stage O calculate_grad_B_tensor S VT.
   Hypothesis Hcst : constants S.
-  Notation fct := (fun i => spsi i * B0 i / S "s.d_l_d_varphi" i).
-  Ltac T_fun nm :=
-    unfold_fixes O calculate_grad_B_tensor (st_fix _ _ _ _ HT) (nm :: "tensor.tn" :: "factor" :: nil)%list; to_state HT.
-  Ltac consts i :=
-    let c1 := fresh "c" in let c2 := fresh "c" in let c3 := fresh "c" in let c4 := fresh "c" in let c5 := fresh "c" in
-    let E1 := fresh "E" in let E2 := fresh "E" in let E3 := fresh "E" in let E4 := fresh "E" in let E5 := fresh "E" in
-    destruct (adm_sG_const S Hadm) as [c1 E1]; destruct (adm_spsi_const S Hadm) as [c2 E2];
-    destruct (cst_B0 S Hcst) as [c3 E3]; destruct (cst_iotaN S Hcst) as [c4 E4];
-    let E6 := fresh "E" in destruct (cst_lp S Hcst) as [c5 E6];
-    assert (E5 : S "s.d_l_d_varphi" = fun _ => c5) by
-      (apply functional_extensionality; intros k; rewrite F_dldvp, E6; reflexivity);
-    rewrite ?E1, ?E2, ?E3, ?E4, ?E5; cbv beta.
-  Lemma D_T_tn i : Dv (VT "tensor.tn") i = sG i * B0 i * S "s.d_curvature_d_varphi" i.
-  Proof. T_fun "tensor.tn". consts i. dv_push. fin. Qed.
-  Lemma D_T_nt i : Dv (VT "tensor.nt") i = sG i * B0 i * S "s.d_curvature_d_varphi" i.
-  Proof. T_fun "tensor.nt". consts i. dv_push. fin. Qed.
-  Lemma D_T_nn i : Dv (VT "tensor.nn") i = fct i * (S "s.d2_X1c_d_varphi2" i * Y1s i + S "s.d_X1c_d_varphi" i * S "s.d_Y1s_d_varphi" i
-       + S "s.iotaN" i * (S "s.d_X1c_d_varphi" i * Y1c i + X1c i * S "s.d_Y1c_d_varphi" i)).
-  Proof. T_fun "tensor.nn". consts i. dv_push. fin. Qed.
-  Lemma D_T_bb i : Dv (VT "tensor.bb") i = fct i * (S "s.d_X1c_d_varphi" i * S "s.d_Y1s_d_varphi" i + X1c i * S "s.d2_Y1s_d_varphi2" i
-       - S "s.iotaN" i * (S "s.d_X1c_d_varphi" i * Y1c i + X1c i * S "s.d_Y1c_d_varphi" i)).
-  Proof. T_fun "tensor.bb". consts i. dv_push. fin. Qed.
-  Lemma D_T_bn i : Dv (VT "tensor.bn") i = fct i * (- sG i * spsi i * S "s.d_l_d_varphi" i * S "s.d_torsion_d_varphi" i
-       - S "s.iotaN" i * (2 * X1c i * S "s.d_X1c_d_varphi" i)).
-  Proof. T_fun "tensor.bn". consts i. dv_push. fin. Qed.
-  Lemma D_T_nb i : Dv (VT "tensor.nb") i = fct i * (S "s.d2_Y1c_d_varphi2" i * Y1s i - S "s.d2_Y1s_d_varphi2" i * Y1c i
-       + sG i * spsi i * S "s.d_l_d_varphi" i * S "s.d_torsion_d_varphi" i
-       + S "s.iotaN" i * (2 * Y1s i * S "s.d_Y1s_d_varphi" i + 2 * Y1c i * S "s.d_Y1c_d_varphi" i)).
-  Proof. T_fun "tensor.nb". consts i. dv_push. fin. Qed.
-  (* pointwise values of the grad B tensor *)
-  Ltac T_vals := unfold_fixes O calculate_grad_B_tensor (st_fix _ _ _ _ HT)
-     ("tensor.nn" :: "tensor.nb" :: "tensor.nt" :: "tensor.bn" :: "tensor.bb" :: "tensor.tn" :: "factor" :: nil)%list; to_state HT.
-  Ltac tang a l :=
-    intros i; gg_entry a l; gg_locals; to_state HG;
-    cbv beta iota delta [dTdl ddl T W];
-    rewrite ?D_T_nn, ?D_T_nb, ?D_T_nt, ?D_T_bn, ?D_T_bb, ?D_T_tn, ?(Dv_cst O HD S); T_vals; rewrite ?F_dldvp; close i.
-  Lemma tan_00 : forall i, S "s.grad_grad_B_2_0_0" i = dTdl O S VT 0 0 i.
-  Proof. tang "s.grad_grad_B_2_0_0" "grad_grad_B_2_0_0#2". Qed.
-  Lemma tan_01 : forall i, S "s.grad_grad_B_2_0_1" i = dTdl O S VT 0 1 i.
-  Proof. tang "s.grad_grad_B_2_0_1" "grad_grad_B_2_0_1#2". Qed.
-  Lemma tan_02 : forall i, S "s.grad_grad_B_2_0_2" i = dTdl O S VT 0 2 i.
-  Proof. tang "s.grad_grad_B_2_0_2" "grad_grad_B_2_0_2#2". Qed.
-  Lemma tan_10 : forall i, S "s.grad_grad_B_2_1_0" i = dTdl O S VT 1 0 i.
-  Proof. tang "s.grad_grad_B_2_1_0" "grad_grad_B_2_1_0#2". Qed.
-  Lemma tan_11 : forall i, S "s.grad_grad_B_2_1_1" i = dTdl O S VT 1 1 i.
-  Proof. tang "s.grad_grad_B_2_1_1" "grad_grad_B_2_1_1#2". Qed.
-  Lemma tan_12 : forall i, S "s.grad_grad_B_2_1_2" i = dTdl O S VT 1 2 i.
-  Proof. tang "s.grad_grad_B_2_1_2" "grad_grad_B_2_1_2#2". Qed.
-  Lemma tan_20 : forall i, S "s.grad_grad_B_2_2_0" i = dTdl O S VT 2 0 i.
-  Proof. tang "s.grad_grad_B_2_2_0" "grad_grad_B_2_2_0#2". Qed.
-  Lemma tan_21 : forall i, S "s.grad_grad_B_2_2_1" i = dTdl O S VT 2 1 i.
-  Proof. tang "s.grad_grad_B_2_2_1" "grad_grad_B_2_2_1#2". Qed.
-  Lemma tan_22 : forall i, S "s.grad_grad_B_2_2_2" i = dTdl O S VT 2 2 i.
-  Proof. tang "s.grad_grad_B_2_2_2" "grad_grad_B_2_2_2#2". Qed.
   Theorem C10_tangent_contraction : tangent_contraction O S VT.
-  Proof.
-    intros i a b Ha Hb. unfold G.
-    destruct a as [|[|[|a]]]; try lia; destruct b as [|[|[|b]]]; try lia;
-      first [apply tan_00|apply tan_01|apply tan_02|apply tan_10|apply tan_11|apply tan_12|apply tan_20|apply tan_21|apply tan_22].
-  Qed.
-  (* ---- (c), tangent slice only: the sigma equation and its derivative ---- *)
+  Proof. eapply C10_tangent_contraction_p; eassumption. Qed.
   Variable VR : string -> I -> R.
   Hypothesis HR : stage O residual S VR.
   Hypothesis Hsig : sigma_solved O S VR.
-  Local Notation F_ebc := (C10_common.F_ebc O HD S VA V1 V2 Hadm HA H1 H2 Hcst VR HR Hsig).
-  Local Notation S_sigma := (C10_common.S_sigma O HD S VA V1 V2 Hadm HA H1 H2 Hcst VR HR Hsig).
-  Local Notation R_sig := (C10_common.R_sig O HD S VA V1 V2 Hadm HA H1 H2 Hcst VR HR Hsig).
-  Local Notation R_sig2 := (C10_common.R_sig2 O HD S VA V1 V2 Hadm HA H1 H2 Hcst VR HR Hsig).
-  Local Notation S_dY1c := (C10_common.S_dY1c O HD S VA V1 V2 Hadm HA H1 H2 Hcst VR HR Hsig).
-  Local Notation S_d2Y1c := (C10_common.S_d2Y1c O HD S VA V1 V2 Hadm HA H1 H2 Hcst VR HR Hsig).
-  Local Notation sigE := (C10_common.sigE S).
-  Local Notation sigE2 := (C10_common.sigE2 S).
-  Ltac close2 i := rewrite ?S_d2Y1c, ?S_dY1c; close i.
-  Lemma sl_201 : forall i, S "s.grad_grad_B_2_0_1" i = S "s.grad_grad_B_2_1_0" i.
-  Proof. intros i; gg_entry "s.grad_grad_B_2_0_1" "grad_grad_B_2_0_1#2"; gg_entry "s.grad_grad_B_2_1_0" "grad_grad_B_2_1_0#2"; gg_locals; to_state HG; close2 i. Qed.
-  Lemma sl_202 : forall i, S "s.grad_grad_B_2_0_2" i = S "s.grad_grad_B_2_2_0" i.
-  Proof. intros i; gg_entry "s.grad_grad_B_2_0_2" "grad_grad_B_2_0_2#2"; gg_entry "s.grad_grad_B_2_2_0" "grad_grad_B_2_2_0#2"; gg_locals; to_state HG; close2 i. Qed.
-  Lemma sl_212 : forall i, S "s.grad_grad_B_2_1_2" i - S "s.grad_grad_B_2_2_1" i = 2 * sG i * spsi i * S "s.I2" i * kap i.
-  Proof. intros i; gg_entry "s.grad_grad_B_2_1_2" "grad_grad_B_2_1_2#2"; gg_entry "s.grad_grad_B_2_2_1" "grad_grad_B_2_2_1#2"; gg_locals; to_state HG; close2 i. Qed.
   Theorem C10_tangent_slice_curl : tangent_slice_curl S.
-  Proof. intros i. unfold G. split; [apply sl_201|split; [apply sl_202|apply sl_212]]. Qed.
+  Proof. eapply C10_tangent_slice_curl_p; eassumption. Qed.
   Theorem C10_vacuum_tangent_slice_symmetric : vacuum_tangent_slice_symmetric S.
-  Proof.
-    intros HI i b c Hb Hc. destruct (C10_tangent_slice_curl i) as (E1 & E2 & E3). rewrite HI in E3.
-    destruct b as [|[|[|b]]]; try lia; destruct c as [|[|[|c]]]; try lia; first [reflexivity|assumption|symmetry; assumption|lra].
-  Qed.
+  Proof. eapply C10_vacuum_tangent_slice_symmetric_p; eassumption. Qed.
 End Main.
 
-(* ---------- (f) scale length and (g) the API variants: any operators ---------- *)
 Section Variants.
   Context {I : Type} (O : ops I) (S VG VY VC : string -> I -> R).
   Hypothesis HG : stage O calculate_grad_grad_B_tensor S VG.
   Hypothesis HY : stage O grad_grad_B_tensor_cylindrical S VY.
   Hypothesis HC : stage O grad_grad_B_tensor_cartesian S VC.
-
-  (* unfold only the bound names that occur in the goal *)
-  Ltac unfold_present P H V :=
-    repeat match goal with
-           | |- context [V (String ?a ?b)] =>
-               let x := constr:(String a b) in
-               let d := eval vm_compute in (defn P x) in
-               lazymatch d with Some _ => progress (unfold_fix O P (st_fix _ _ _ _ H) x) end
-           end.
-  Ltac from_state H l :=
-    lazymatch l with
-    | nil => idtac
-    | cons ?x ?l' => rewrite <- (st_agree _ _ _ _ H x eq_refl); from_state H l'
-    end.
-
   Theorem C10_scale_length : scale_length O S.
-  Proof.
-    intros i.
-    assert (Hns : VG "norm_squared" i = frob3 S i).
-    { unfold frob3, G. cbn [dg append].
-      from_state HG ("s.grad_grad_B_0_0_0" :: "s.grad_grad_B_0_0_1" :: "s.grad_grad_B_0_0_2" :: "s.grad_grad_B_0_1_0" :: "s.grad_grad_B_0_1_1" :: "s.grad_grad_B_0_1_2" :: "s.grad_grad_B_0_2_0" :: "s.grad_grad_B_0_2_1" :: "s.grad_grad_B_0_2_2" :: "s.grad_grad_B_1_0_0" :: "s.grad_grad_B_1_0_1" :: "s.grad_grad_B_1_0_2" :: "s.grad_grad_B_1_1_0" :: "s.grad_grad_B_1_1_1" :: "s.grad_grad_B_1_1_2" :: "s.grad_grad_B_1_2_0" :: "s.grad_grad_B_1_2_1" :: "s.grad_grad_B_1_2_2" :: "s.grad_grad_B_2_0_0" :: "s.grad_grad_B_2_0_1" :: "s.grad_grad_B_2_0_2" :: "s.grad_grad_B_2_1_0" :: "s.grad_grad_B_2_1_1" :: "s.grad_grad_B_2_1_2" :: "s.grad_grad_B_2_2_0" :: "s.grad_grad_B_2_2_1" :: "s.grad_grad_B_2_2_2" :: nil)%list.
-      unfold_fixes O calculate_grad_grad_B_tensor (st_fix _ _ _ _ HG) ("norm_squared" :: "squared_0_0_0" :: "squared_0_0_1" :: "squared_0_0_2" :: "squared_0_1_0" :: "squared_0_1_1" :: "squared_0_1_2" :: "squared_0_2_0" :: "squared_0_2_1" :: "squared_0_2_2" :: "squared_1_0_0" :: "squared_1_0_1" :: "squared_1_0_2" :: "squared_1_1_0" :: "squared_1_1_1" :: "squared_1_1_2" :: "squared_1_2_0" :: "squared_1_2_1" :: "squared_1_2_2" :: "squared_2_0_0" :: "squared_2_0_1" :: "squared_2_0_2" :: "squared_2_1_0" :: "squared_2_1_1" :: "squared_2_1_2" :: "squared_2_2_0" :: "squared_2_2_1" :: "squared_2_2_2" :: "s.grad_grad_B_0_0_0" :: "s.grad_grad_B_0_0_1" :: "s.grad_grad_B_0_0_2" :: "s.grad_grad_B_0_1_0" :: "s.grad_grad_B_0_1_1" :: "s.grad_grad_B_0_1_2" :: "s.grad_grad_B_0_2_0" :: "s.grad_grad_B_0_2_1" :: "s.grad_grad_B_0_2_2" :: "s.grad_grad_B_1_0_0" :: "s.grad_grad_B_1_0_1" :: "s.grad_grad_B_1_0_2" :: "s.grad_grad_B_1_1_0" :: "s.grad_grad_B_1_1_1" :: "s.grad_grad_B_1_1_2" :: "s.grad_grad_B_1_2_0" :: "s.grad_grad_B_1_2_1" :: "s.grad_grad_B_1_2_2" :: "s.grad_grad_B_2_0_0" :: "s.grad_grad_B_2_0_1" :: "s.grad_grad_B_2_0_2" :: "s.grad_grad_B_2_1_0" :: "s.grad_grad_B_2_1_1" :: "s.grad_grad_B_2_1_2" :: "s.grad_grad_B_2_2_0" :: "s.grad_grad_B_2_2_1" :: "s.grad_grad_B_2_2_2" :: nil)%list.
-      reflexivity. }
-    assert (Hpos : 0 <= frob3 S i).
-    { unfold frob3.
-      repeat (apply Rplus_le_le_0_compat; [|apply Rle_0_sqr]). apply Rle_0_sqr. }
-    assert (Hinv : S "s.grad_grad_B_inverse_scale_length_vs_varphi" i = sqrt (sqrt (frob3 S i) / (4 * S "s.B0" i))).
-    { rewrite <- Hns. rewrite <- (st_agree _ _ _ _ HG "s.grad_grad_B_inverse_scale_length_vs_varphi" eq_refl).
-      unfold_fixes O calculate_grad_grad_B_tensor (st_fix _ _ _ _ HG) ("s.grad_grad_B_inverse_scale_length_vs_varphi" :: "B0" :: nil)%list.
-      to_state HG. qsimp. reflexivity. }
-    assert (Hsq : 0 < S "s.B0" i -> S "s.grad_grad_B_inverse_scale_length_vs_varphi" i * S "s.grad_grad_B_inverse_scale_length_vs_varphi" i * (4 * S "s.B0" i) = sqrt (frob3 S i)).
-    { intros HB. rewrite Hinv. rewrite sqrt_sqrt.
-      - field. lra.
-      - unfold Rdiv. apply Rmult_le_pos; [apply sqrt_pos|]. apply Rlt_le, Rinv_0_lt_compat. lra. }
-    split; [|split; [|split]].
-    - intros Hnz. rewrite <- (st_agree _ _ _ _ HG "s.L_grad_grad_B" eq_refl).
-      unfold_fix O calculate_grad_grad_B_tensor (st_fix _ _ _ _ HG) "s.L_grad_grad_B". to_state HG. qsimp. field. exact Hnz.
-    - exact Hsq.
-    - intros HB. rewrite (Hsq HB). apply sqrt_sqrt. exact Hpos.
-    - rewrite <- (st_agree _ _ _ _ HG "s.grad_grad_B_inverse_scale_length" eq_refl).
-      unfold_fix O calculate_grad_grad_B_tensor (st_fix _ _ _ _ HG) "s.grad_grad_B_inverse_scale_length". to_state HG. reflexivity.
-  Qed.
-
-  (* KNOWN DEFECT (documented, not repaired): the variant advertised as cylindrical returns the Frenet-frame array *)
+  Proof. eapply C10_scale_length_p; eassumption. Qed.
   Theorem C10_cylindrical_is_frenet : cylindrical_is_frenet S VY.
-  Proof.
-    intros i a b c Ha Hb Hc. unfold ret, G.
-    destruct a as [|[|[|a]]]; try lia; destruct b as [|[|[|b]]]; try lia; destruct c as [|[|[|c]]]; try lia; cbn [dg append];
-      unfold_present grad_grad_B_tensor_cylindrical HY VY; to_state HY; reflexivity.
-  Qed.
-
+  Proof. eapply C10_cylindrical_is_frenet_p; eassumption. Qed.
   Theorem C10_cartesian_is_rotation_of_that : cartesian_is_rotation_of_that S VC.
-  Proof.
-    intros i a b c Ha Hb Hc. unfold ret, rotated3, sum3, cyl_in, Qrot.
-    destruct a as [|[|[|a]]]; try lia; destruct b as [|[|[|b]]]; try lia; destruct c as [|[|[|c]]]; try lia; cbn [dg append];
-      unfold_present grad_grad_B_tensor_cartesian HC VC;
-      to_state HC; ring.
-  Qed.
-
-  (* composition: fed with the array returned by the "cylindrical" variant, the Cartesian variant is the rotation about Z of the FRENET components *)
+  Proof. eapply C10_cartesian_is_rotation_of_that_p; eassumption. Qed.
   Corollary C10_cartesian_rotates_frenet : fed_by VY VC ->
     forall i a b c, (a < 3)%nat -> (b < 3)%nat -> (c < 3)%nat -> ret VC a b c i = rotated3 S (G S) a b c i.
-  Proof.
-    intros Hfed i a b c Ha Hb Hc. rewrite (C10_cartesian_is_rotation_of_that i a b c Ha Hb Hc).
-    unfold rotated3, sum3.
-    rewrite !Hfed by lia. rewrite !C10_cylindrical_is_frenet by lia. reflexivity.
-  Qed.
+  Proof. intros Hfed. eapply C10_cartesian_rotates_frenet_p; eassumption. Qed.
 End Variants.
 
 (* ---------- summary: the closed statements ---------- *)
